@@ -49,6 +49,11 @@ type Task struct {
 	mask    uint32 // readiness mask computed this step (idle tasks)
 	fn      func()
 	prio    int // PCT priority
+	// Held counts the wrapped mutexes the task holds (mutex seam).
+	Held int
+	// skipUnlockYield: the last shard-level yield site was filtered out, so the
+	// unlock that follows it is not a preemption point either
+	SkipUnlockYield bool
 	// statistics
 	Steps int
 }
@@ -240,9 +245,51 @@ func Yield(site int, key uint64) {
 		return
 	}
 	if s.YieldFilter != nil && !s.YieldFilter(site, key) {
+		t.SkipUnlockYield = true
 		return
 	}
 	t.Site, t.Key = site, key
+	t.SkipUnlockYield = false
+	atomic.StoreInt32(&t.state, StParked)
+	park(t)
+}
+
+// Site numbers of the mutex seam.
+const SiteAfterUnlock = 250
+
+// NoUnlockYield suppresses the preemption point after unlocks (set by the
+// harness around its own white-box reads in task context).
+var NoUnlockYield int32
+
+// MutexLocked / MutexUnlocked are the mutex-seam hooks: a task that has just
+// released its last lock yields.
+//
+//go:norace
+func MutexLocked() {
+	s := S
+	if s == nil {
+		return
+	}
+	if t := s.self(); t != nil {
+		t.Held++
+	}
+}
+
+//go:norace
+func MutexUnlocked() {
+	s := S
+	if s == nil {
+		return
+	}
+	t := s.self()
+	if t == nil {
+		return
+	}
+	t.Held--
+	if t.Held != 0 || t.SkipUnlockYield || atomic.LoadInt32(&NoUnlockYield) != 0 {
+		return
+	}
+	t.Site, t.Key = SiteAfterUnlock, 0
 	atomic.StoreInt32(&t.state, StParked)
 	park(t)
 }
